@@ -621,6 +621,13 @@ func PostMaintenance(res *Result, im Image, db *NoKV.DB, r *pbt.Rec) (*NoKV.DB, 
 	}
 	ran := 0
 	for i, m := range c.Post {
+		if os.Getenv("VERIF_TRACE") != "" {
+			lay := ""
+			for _, ti := range db.VerifLSM().VerifLayout() {
+				lay += fmt.Sprintf(" L%d/ingest=%v/fid=%d", ti.Level, ti.Ingest, ti.FID)
+			}
+			fmt.Printf("TRACE post image=%q step=%d maint=%v layout:%s\n", im.Where, i, m, lay)
+		}
 		what, merr := eng.DoMaint(db, m, r)
 		if merr != nil {
 			return db, pbt.Failf("maint-error", "recovered image (%s): maintenance step %d %v: %v", im.Where, i, m, merr)
